@@ -20,6 +20,7 @@ META = {
     "trusted_base": ["std::sync::RwLock mutual exclusion", "std::task::Waker::wake schedules the task", "Vec::drain(..)/mem::take remove all elements", "rustc MIR construction"],
     "assumptions": [],
 }
+META["explanation"] += " R04.3 (value and marked version under one guard) is evaluated here for the clause 'never suspended over an unobserved update'."
 
 NEXT = r"(^|::)Iterator(>)?::next$|^<.* as std::iter::Iterator>::next$"
 
@@ -38,9 +39,11 @@ def run(ctx):
     r02_5(ctx, wake_fn)
     r02_6(ctx)
     # "and by the closing of the observable": the close (which wakes) must actually be reached when the last owner goes away
-    from . import c03, groups
+    from . import c03, c04, groups
     c03.run(ctx)
     groups.eyeball_poll_typestate(ctx)
+    # "never suspended over an unobserved update": a subscriber that marks a version it did not hand out parks on top of it
+    c04.r04_3(ctx)
 
 
 def r02_3(ctx, wake_fn):
